@@ -1381,6 +1381,179 @@ func (s *seq) stepFormatsAndKeys() {
 	}
 }
 
+// stepInList: subscriptions whose where-clause is an "in" list of 9 ... 20000 values,
+// and the very first evaluations of that condition happening at the same time: writers
+// released from a barrier right after subscribing (privileged puts of fresh records
+// plus creates through the API). The parsed query is shared by all of them. Judged:
+// the process survives, every write that selects the subscription is notified exactly
+// once, no other write is.
+func (s *seq) stepInList() {
+	d := s.writableDB()
+	tag := "in-list"
+	if !s.allowed(tag) || !s.idle() {
+		return
+	}
+	prefix := fmt.Sprintf("api/b%d/i%d-%d/", s.e.spec.Batch, s.no, len(s.c.ops))
+	if err := s.e.w.putWrapper(fmt.Sprintf("%s:%sbase", d.Name, prefix), dsd.JSON, []byte(`{"s":"base"}`), nil); err != nil {
+		return
+	}
+	n := vlib.Pick(s.r, 9, 12, 300, 3000, 20000, 20000)
+	vals := make([]string, n)
+	for i := range vals {
+		vals[i] = fmt.Sprintf("val-%d", i)
+	}
+	text := "query " + d.Name + ":" + prefix + " where s in " + strings.Join(vals, ",")
+	s.e.b.Count("in_list_steps", 1)
+	s.e.b.Seen("in_list_sizes", fmt.Sprint(n))
+	var subs []*subRec
+	for _, cmd := range []string{"sub", "qsub"}[:s.r.Range(1, 2)] {
+		q := &queryGen{DB: d.Name, Prefix: prefix, Valid: true, Model: false, Class: "in-list", Text: text}
+		if sb := s.establish(cmd, q, tag, d); sb != nil {
+			subs = append(subs, sb)
+		}
+		if s.e.aborted {
+			return
+		}
+	}
+	// not part of the sequence's modelled subscriptions
+	for _, sb := range subs {
+		for i, x := range s.subs {
+			if x == sb {
+				s.subs = append(s.subs[:i], s.subs[i+1:]...)
+				break
+			}
+		}
+	}
+	if len(subs) == 0 {
+		return
+	}
+	type iw struct {
+		w, i  int
+		key   string
+		raw   []byte
+		match bool
+		done  bool
+	}
+	nw, per := 8, s.r.Range(6, 14)
+	plan := make([][]*iw, nw)
+	for w := 0; w < nw; w++ {
+		for i := 0; i < per; i++ {
+			x := &iw{w: w, i: i, key: fmt.Sprintf("%s:%sw%d-%d", d.Name, prefix, w, i), match: s.r.Chance(2, 3)}
+			sv := fmt.Sprintf("other-%d", s.r.Intn(1000))
+			if x.match {
+				sv = vals[s.r.Intn(n)]
+			}
+			x.raw = mustJSON(map[string]any{"w": w, "i": i, "s": sv})
+			plan[w] = append(plan[w], x)
+		}
+	}
+	barrier := make(chan struct{})
+	var wg sync.WaitGroup
+	for w := 0; w < nw; w++ {
+		wg.Add(1)
+		go func(w int) {
+			defer wg.Done()
+			<-barrier
+			for _, x := range plan[w] {
+				if s.e.w.putWrapper(x.key, dsd.JSON, x.raw, nil) == nil {
+					x.done = true
+				}
+			}
+		}(w)
+	}
+	close(barrier)
+	// creates through the API at the same time
+	var apiW []*iw
+	var apiOps []*opRec
+	for i := 0; i < 4; i++ {
+		x := &iw{w: 100, i: i, key: fmt.Sprintf("%s:%sapi-%d", d.Name, prefix, i), match: i%2 == 0}
+		sv := "other-api"
+		if x.match {
+			sv = vals[s.r.Intn(n)]
+		}
+		x.raw = mustJSON(map[string]any{"w": 100, "i": i, "s": sv})
+		apiW = append(apiW, x)
+		s.note("create/" + d.Backend)
+		apiOps = append(apiOps, s.c.request(s.e.newOpID(s.r), "create", x.key+"|J"+string(x.raw), tag, d.Backend))
+	}
+	if !s.idle() { // watches the writers, too
+		return
+	}
+	wg.Wait()
+	for i, op := range apiOps {
+		s.recordOutcome(op)
+		apiW[i].done = s.lastType(op) == "success"
+	}
+	all := apiW
+	for _, p := range plan {
+		all = append(all, p...)
+	}
+	for _, sb := range subs {
+		s.c.cancel(sb.op, "cancel/sub")
+	}
+	if !s.idle() {
+		return
+	}
+	type wi struct{ w, i int }
+	for _, sb := range subs {
+		s.recordOutcome(sb.op)
+		got := map[wi]int{}
+		inSub := sb.op.Kind == "sub"
+		for _, r := range s.c.snapshot(sb.op) {
+			if !inSub {
+				inSub = r.Type == "done"
+				continue
+			}
+			if r.Type != "upd" && r.Type != "new" {
+				continue
+			}
+			_, data, ok := splitKeyData(r.Rest, "")
+			if !ok || len(data) < 2 {
+				continue
+			}
+			dv, err := decodeDoc(data[1:])
+			m, _ := dv.(map[string]any)
+			if err != nil || m == nil {
+				continue
+			}
+			wn, _ := m["w"].(json.Number)
+			in, _ := m["i"].(json.Number)
+			w64, _ := wn.Int64()
+			i64, _ := in.Int64()
+			got[wi{int(w64), int(i64)}]++
+		}
+		s.e.b.Count("sub_checks", 1)
+		missing, unexpected, dup := 0, 0, 0
+		var first *iw
+		for _, x := range all {
+			c := got[wi{x.w, x.i}]
+			switch {
+			case x.done && x.match && c == 0:
+				missing++
+				if first == nil {
+					first = x
+				}
+			case !x.match && c > 0:
+				unexpected++
+			case c > 1:
+				dup++
+			}
+			s.e.b.Count("notifications_seen", int64(c))
+		}
+		det := opDetail(sb.op, map[string]any{"in_list_values": n, "writers": nw, "writes_per_writer": per, "missing": missing, "unexpected": unexpected, "duplicates": dup})
+		det["messages"] = []string{clip(text, 300)}
+		switch {
+		case missing > 0:
+			det["first_missing"] = string(first.raw)
+			s.viol(finding{Sig: "C13:sub:missing-notification:" + sb.op.Kind + ":in-list", What: fmt.Sprintf("%d writes whose s is in the subscription's list of %d values were not notified (writers started together right after subscribing)", missing, n), Detail: det})
+		case unexpected > 0:
+			s.viol(finding{Sig: "C13:sub:unexpected-notification:" + sb.op.Kind, What: fmt.Sprintf("%d writes whose s is not in the subscription's list were notified", unexpected), Detail: det})
+		case dup > 0:
+			s.viol(finding{Sig: "C13:sub:duplicate-notification:" + sb.op.Kind, What: fmt.Sprintf("%d writes were notified more than once", dup), Detail: det})
+		}
+	}
+}
+
 // stepManySubs: many subscriptions open at the same time on one connection, then
 // ordinary requests and the cancels of all of them. n is chosen around sizes at which
 // per-connection limits typically sit (1, 8, 63, 64, 65, 100, 300).
